@@ -33,6 +33,7 @@ DECIDED = [
     "C16.4 __contains__ and get share start set and descent and differ only in the terminal action",
     "C16.5 get_nodes_by_name returns nodes_index.get(name) unfiltered (or its unique element)",
     "C16.6 trie node primitives (check/get/set child, traversal yields the node and all descendants)",
+    "C16.7 every visit registration goes to the register its name says, for (node, worker); registers start empty and are per node",
 ]
 NOT_DECIDED = ["exactness of get() for all name sets and queries (data-structure correctness needs a model)"]
 MIN_INSTANCES = 14
@@ -259,6 +260,10 @@ def run(ctx: Ctx) -> None:
     ctx.call(lookup_siblings, "4")
     ctx.call(node_primitives, "6")
     ctx.call(GR.index_consistency, "5")
+    from . import atoms as A
+
+    ctx.call(A.drop_registrations, "7")
+    ctx.call(A.fresh_state, "7f")
 
 
 MUTANTS = [
